@@ -127,6 +127,23 @@ def translate(cfg, outdir):
             parts = u["name"].split("::")
             cls = tm.struct_tag(parts[-2])
         static = node.get("storageClass") == "static"
+        if not static and node.get("previousDecl"):
+            # out-of-line definition of a static member function: `static` is only on the in-class declaration
+            def decl_of(n, want, depth=0):
+                if n.get("id") == want:
+                    return n
+                if depth < 6:
+                    for c in n.get("inner", []):
+                        if isinstance(c, dict) and c.get("kind", "").endswith("Decl"):
+                            r = decl_of(c, want, depth + 1)
+                            if r is not None:
+                                return r
+                return None
+            for o in objs:
+                prev = decl_of(o, node["previousDecl"])
+                if prev is not None:
+                    static = prev.get("storageClass") == "static"
+                    break
         if node["kind"] == "CXXConstructorDecl":
             cname = u.get("cname") or em.fn_cname(cls, "ctor", node["type"]["qualType"])
         else:
@@ -154,6 +171,9 @@ def translate(cfg, outdir):
                      "ast_sha1": hashlib.sha1(json.dumps(node, sort_keys=True).encode()).hexdigest(),
                      "begin_offset": b.get("offset", b.get("expansionLoc", {}).get("offset")),
                      "end_offset": e.get("offset", e.get("expansionLoc", {}).get("offset")), "line": line0})
+    for lu in em.lifted_units:  # lifted lambdas / per-call-site algorithm models: may carry contracts like units
+        meta.append({"unit": "%s of %s" % (lu["kind"], lu["of"]), "cname": lu["cname"], "tu": None, "loops": lu["loops"],
+                     "lifted": True})
     # extra fields requested by the spec (ghost fields or fields used only by predicates)
     for tag, fields in cfg.get("extra_fields", {}).items():
         for f, ct in fields.items():
@@ -163,6 +183,16 @@ def translate(cfg, outdir):
     for d, bs in cfg.get("extra_bases", {}).items():
         for b in bs:
             em.add_base(d, b)
+
+    # ---- pointer conversions emitted as casts: the base must sit at offset 0 (chain of first bases)
+    for d, b in sorted(em.upcasts):
+        cur, seen = d, set()
+        while cur != b and em.bases.get(cur) and cur not in seen:
+            seen.add(cur)
+            cur = em.bases[cur][0]
+        if cur != b:
+            raise ExtractionError("conversion %s* -> %s*: %s is not known as a first base of %s (add extra_bases)" %
+                                  (d, b, b, d))
 
     # ---- enum constants
     enum_defs = []
